@@ -152,8 +152,23 @@ class C12Hooks(Hooks):
     def __init__(self, sy, found, rule, ids=None):
         self.sy, self.found, self.rule, self.ids = sy, found, rule, ids
 
+    def memo_extra(self, n, cf, args):
+        sy = self.sy
+        return tuple((sy.int_value(a), sy.field(sy.unwrap_move(a)), (sy.unwrap_move(a) or {}).get('id')) for a in args)
+
     def pre_call(self, n, cf, args, st):
+        sy = self.sy
         for p, a in zip(cf.get('params', []), args):
+            v = sy.int_value(a)
+            if v is not None:
+                sy.consts[p['id']] = v              # constant handed to the helper (e.g. the new value of the flag)
+            else:
+                sy.consts.pop(p['id'], None)
+            pd = sy.tu.node(p['id'])
+            if pd is not None and (pd.get('type', {}).get('qualType') or '').rstrip().endswith('&'):
+                sy.ref_alias[p['id']] = a           # reference parameter: stands for the argument it is bound to
+            else:
+                sy.ref_alias.pop(p['id'], None)
             if self.sy.is_star_this(a):
                 self.sy.this_alias.add(p['id'])     # a helper (object) that works on the analysed object through a reference
             if self.ids is not None and any(self.sy.mentions_var(a, i) for i in list(self.ids)):
@@ -276,6 +291,31 @@ def nearest_user(tu, n):
     return p
 
 
+def bound_to_ref_param(tu, sy, inl, n):
+    """is the member expression n (possibly inside std::move / std::forward / casts) passed to a reference parameter of a followed
+    helper?  Then no access happens at this point."""
+    x = n
+    for _ in range(6):
+        u = nearest_user(tu, x)
+        if u is None:
+            return False
+        if u.get('kind') == 'CallExpr' and tu.sd(u).get('q') in ('std::move', 'std::forward'):
+            x = u
+            continue
+        if u.get('kind') in ('CXXStaticCastExpr', 'CStyleCastExpr', 'CXXFunctionalCastExpr', 'MaterializeTemporaryExpr'):
+            x = u
+            continue
+        cf = inl.callee(u)
+        if cf is None:
+            return False
+        for p_, a_ in zip(cf.get('params', []), inl.args(u, cf)):
+            if any(y is x or y.get('id') == x.get('id') for y in tu.walk(a_) if 'id' in y):
+                pd = tu.node(p_['id'])
+                return pd is not None and (pd.get('type', {}).get('qualType') or '').rstrip().endswith('&')
+        return False
+    return False
+
+
 def check_guarded(ctx, tu, sy, rec, T, f, counts):
     g = tu.cfg(f)
     inl = inliner(tu, T)
@@ -348,8 +388,14 @@ def check_guarded(ctx, tu, sy, rec, T, f, counts):
                     found.viol(R1, fn_short(cur_fn()), 'current-slot-in-producer', 'the producer-side member %s touches the consumer-confined '
                                'current slot (%s.front())' % (name, dbv_member(tu)), n)
             return [st]
-        if n.get('kind') != 'MemberExpr':
+        if n.get('kind') == 'DeclRefExpr' and n.get('referencedDecl', {}).get('id') in sy.ref_alias:
+            tgt = sy.deref_alias(n)
+            if tgt is None or tgt.get('kind') != 'MemberExpr':
+                return [st]
+        elif n.get('kind') != 'MemberExpr':
             return [st]
+        elif bound_to_ref_param(tu, sy, inl, n):
+            return [st]             # only a reference is formed here
         fld = sy.field(n)
         if fld is None or fld[0] != rec:
             return [st]
@@ -1002,6 +1048,11 @@ def check_update(ctx, tu, sy, f, counts):
                     d = dict(vars_)
                     d['$reset'] = True
                     return [(locks, known, flag, inst, iscope, True, frozenset(d.items()))]
+                if val is True:
+                    found.viol(R3, FN, 'flag-set-by-update', 'update() stores true to the pending flag instead of resetting it: the flag '
+                               'stays raised after the install, so the next update() returns true again and installs the moved-from '
+                               'slot - a value nobody assigned', node)
+                    return [st]
                 found.und(R3, 'update() stores something other than false to the flag', node)
                 return [st]
             if fld == CURRENT:
@@ -1416,7 +1467,44 @@ def pattern_accesses(tu, sy, rec, T, members):
             fld = sy.field(n)
             if fld is None or fld[0] != rec or fld[1] not in members or not sy.base_is_this(n):
                 continue
-            out.append((f, f, lexical_lock(tu, sy, f, n, mutex, T), access_kind(tu, sy, n), n))
+            held = lexical_lock(tu, sy, f, n, mutex, T)
+            if held is False:
+                # handed (possibly through std::move / std::forward) to a helper of the class by reference?  Then the access is
+                # where the helper uses that parameter: locked iff every candidate helper uses it inside a lexical lock scope
+                x, call = n, None
+                for _ in range(5):
+                    u = nearest_user(tu, x)
+                    if u is None:
+                        break
+                    if u.get('kind') in ('CallExpr', 'CXXMemberCallExpr'):
+                        callee0 = tu.strip(tu.kids(u)[0]) if tu.kids(u) else None
+                        nm = (callee0 or {}).get('referencedDecl', {}).get('name') if callee0 is not None and callee0.get('kind') == 'DeclRefExpr' else None
+                        if nm in ('move', 'forward') or tu.sd(u).get('q') in ('std::move', 'std::forward'):
+                            x = u
+                            continue
+                        call = u
+                        break
+                    if u.get('kind') in ('CXXStaticCastExpr', 'UnresolvedLookupExpr', 'MaterializeTemporaryExpr'):
+                        x = u
+                        continue
+                    break
+                if call is not None:
+                    args = tu.kids(call)[1:]
+                    pos = [i_ for i_, a_ in enumerate(args) if any(y is x or y.get('id') == x.get('id') for y in tu.walk(a_) if 'id' in y)]
+                    verdicts = []
+                    for h in tu.functions.values():
+                        if not pos or not h['dep'] or h.get('rec') != rec or tu.body(h) is None or h['id'] == f['id'] or \
+                                len(h.get('params', [])) != len(args):
+                            continue
+                        pd = tu.node(h['params'][pos[0]]['id'])
+                        if pd is None or not (pd.get('type', {}).get('qualType') or '').rstrip().endswith('&'):
+                            continue
+                        uses = [y for y in tu.walk(tu.body(h)) if y.get('kind') == 'DeclRefExpr' and
+                                y.get('referencedDecl', {}).get('id') == h['params'][pos[0]]['id']]
+                        verdicts.append(bool(uses) and all(lexical_lock(tu, sy, h, y, mutex, T) is True for y in uses))
+                    if verdicts:
+                        held = True if all(verdicts) else None
+            out.append((f, f, held, access_kind(tu, sy, n), n))
     return out
 
 
